@@ -45,7 +45,11 @@ def sweeps(tier):
     shapes = [('tcp', [1, 1]), ('rtu', [1, 1]), ('udp', [1, 1])]
     if tier == 'thorough':
         shapes += [('tcp', [2, 2]), ('tcp', [1, 1, 1]), ('rtu', [2, 1])]
-    return [('all-schedules-%s-%s' % (c, 'x'.join(map(str, n))), _enumerate(c, n, 4000 if tier == 'quick' else 200000), True) for c, n in shapes]
+    out = [('all-schedules-%s-%s' % (c, 'x'.join(map(str, n))), _enumerate(c, n, 4000 if tier == 'quick' else 200000), True) for c, n in shapes]
+    # a second caller that is BORN while the first transaction is between its send and its receive (no scheduler: the first caller is
+    # the check's own main thread, the second a real thread started from inside the transport)
+    out.append(('thread-born-during-a-transaction', [{'born': True, 'client': c, 'n': n} for c in ('tcp', 'udp', 'rtu') for n in (1, 2)], False))
+    return out
 
 
 def _enumerate(client, ntx, cap):
@@ -203,5 +207,86 @@ def _all_attempts_faulted(case):
     return sum(1 for x in f if x) > 3
 
 
+def _run_born(case):
+    """Main thread: transaction A.  While A is between its send and its receive a new thread is created and calls the same client
+    (transaction B).  With working serialisation B waits at the lock until A is over; the check waits (real time, bounded) until B
+    has finished or sits motionless, so a slow machine can only make the scenario miss an overlap, never invent one."""
+    import sys
+    import threading
+    import time as realtime
+    from pymodbus.client.sync import ModbusTcpClient, ModbusSerialClient, ModbusUdpClient
+    pm.reset_globals()
+    ckind = case['client']
+    framing = 'rtu' if ckind == 'rtu' else 'tcp'
+    labels = ['born-during-transaction', 'client:' + ckind]
+    discs = []
+    state = {'main_open': False, 'spawned': 0, 'overlap': None, 'results': {}, 'threads': []}
+
+    class Peer(ReplyPeer):
+        def on_write(self_, conn, data):
+            me = threading.current_thread()
+            if me is not threading.main_thread() and state['overlap'] is None and state.get('a_reply_len'):
+                # judged on the transport log: has the first caller (main thread = log owner None) read all of its reply yet?
+                got = sum(len(ev[2]) for ev in world.log[state['a_sent_at']:] if ev[0] == 'recv' and ev[1] is None)
+                if got < state['a_reply_len']:
+                    state['overlap'] = 'the new thread sent %s while the first caller had read %d of the %d bytes of its reply' % (
+                        bytes(data).hex()[:40], got, state['a_reply_len'])
+            items = ReplyPeer.on_write(self_, conn, data)
+            if me is threading.main_thread():
+                state['a_sent_at'] = len(world.log)
+                state['a_reply_len'] = sum(len(it[1]) for it in items if it[0] != 'close')
+            if me is threading.main_thread() and state['spawned'] < case.get('n', 1):
+                state['spawned'] += 1
+                k = state['spawned']
+
+                def second():
+                    try:
+                        state['results'][k] = client.read_holding_registers(100 + k, 2, unit=5)
+                    except Exception as e:
+                        state['results'][k] = e
+                t = threading.Thread(target=second, daemon=True)
+                state['threads'].append(t)
+                t.start()
+                # let it run until it is done or blocked (same code position for 10 samples of 20 ms), at most 5 s
+                same, last, t0 = 0, None, realtime.time()
+                while t.is_alive() and realtime.time() - t0 < 5:
+                    fr = sys._current_frames().get(t.ident)
+                    pos = (id(fr.f_code), fr.f_lasti) if fr is not None else None
+                    same = same + 1 if pos == last else 0
+                    last = pos
+                    if same >= 10:
+                        break
+                    realtime.sleep(0.02)
+            return items
+    peer = Peer(framing, [False] * 4, [], stream=False)
+    with transports.World(peer) as world:
+        kw = {'retries': 0, 'timeout': 1}
+        client = ModbusTcpClient('peer', 502, **kw) if ckind == 'tcp' else (
+            ModbusUdpClient('peer', 502, **kw) if ckind == 'udp' else ModbusSerialClient(method='rtu', port='/dev/null', baudrate=115200, **kw))
+        state['main_open'] = True
+        try:
+            first = client.read_holding_registers(7, 3, unit=1)
+        except Exception as e:
+            first = e
+        state['main_open'] = False
+        for t in state['threads']:
+            t.join(30)
+            if t.is_alive():
+                discs.append(Disc('deadlock', '%s: the thread born during the first transaction never finished' % ckind))
+    if state['overlap']:
+        discs.append(Disc('interleaved', '%s: %s' % (ckind, state['overlap'])))
+    want = [(7 * 3 + i + 1000) & 0xFFFF for i in range(3)]
+    if not discs and getattr(first, 'registers', None) != want:
+        discs.append(Disc('wrong-reply', '%s: the first caller got %r (expected %r) after a second thread was born during its transaction' % (ckind, first, want)))
+    for k, r in sorted(state['results'].items()):
+        w2 = [((100 + k) * 3 + i + 1000) & 0xFFFF for i in range(2)]
+        if not discs and getattr(r, 'registers', None) != w2:
+            discs.append(Disc('wrong-reply', '%s: the thread born during the first transaction got %r (expected %r)' % (ckind, r, w2)))
+    pm.reset_globals()
+    return Outcome(discs, labels, True)
+
+
 def run_case(case):
+    if case.get('born'):
+        return _run_born(case)
     return _run(case)[0]
